@@ -29,7 +29,7 @@ CHECK_DEADLOCK FALSE
 """
 DUMP_CFG = 'SPECIFICATION Spec\nINVARIANT Dump\nCHECK_DEADLOCK FALSE\n'
 WORKERS = int(os.environ.get('VERIF_WORKERS', '16'))
-ANALYSIS_TIMEOUT_S = 2.0     # the fixed point of nested tuple types (x = (x, 1) in a loop) does not terminate
+ANALYSIS_TIMEOUT_S = 0.5     # the fixed point of nested tuple types (x = (x, 1) in a loop) does not terminate
 
 TIERS = {
     # fam_full: exhaustive family sizes; fam_sample: (size, how many sampled); rnd: (count, statement budget)
@@ -144,8 +144,7 @@ class _Diverged(Exception):
 
 
 def _alarm(*_):
-    if _G.get('armed'):
-        _G['armed'] = False
+    if _G.get('armed'):          # the timer repeats: an exception swallowed somewhere is raised again
         raise _Diverged()
 
 
@@ -156,7 +155,7 @@ def _export_one(tree):
     signal.signal(signal.SIGALRM, _alarm)
     try:
         _G['armed'] = True
-        signal.setitimer(signal.ITIMER_REAL, ANALYSIS_TIMEOUT_S)
+        signal.setitimer(signal.ITIMER_REAL, ANALYSIS_TIMEOUT_S, 0.05)
         try:
             c = X.export_claims(_G['mods'], _G['tables'], tree, p, src, 0)
             c2 = X.export_claims(_G['mods'], _G['tables'], tree, p, src, 1)
@@ -175,30 +174,22 @@ def _export_one(tree):
         return p, src, None, '%s: %s\n%s' % (type(e).__name__, e, traceback.format_exc(limit=6))
 
 
-def export_all(trees, tables, procs):
-    limit = max(3, len(trees) // 100)
+def _export_chunk(trees):
+    return [_export_one(t) for t in trees]
 
-    def too_many(n, src):
-        return common.MachineryError('type inference did not terminate within %.0fs on more than %d of %d programs; '
-                                     'first:\n%s' % (ANALYSIS_TIMEOUT_S, limit, len(trees), src))
-    out, nd = [], 0
+
+def export_all(trees, tables, procs):
     if procs <= 1 or len(trees) < 64:
         _export_init(tables)
-        for t in trees:
-            out.append(_export_one(t))
-            nd += out[-1][3] == 'diverged'
-            if nd > limit:
-                raise too_many(nd, out[-1][1])
-        return out
+        return [_export_one(t) for t in trees]
+    out = []
     ctx = multiprocessing.get_context('fork')
     with ctx.Pool(procs, initializer=_export_init, initargs=(tables,)) as pool:
-        it = pool.imap(_export_one, trees, chunksize=max(1, min(50, len(trees) // (procs * 8))))
+        groups = list(common.chunks(trees, max(1, min(25, len(trees) // (procs * 4)))))
+        it = pool.imap(_export_chunk, groups)
         try:
-            for _ in range(len(trees)):
-                out.append(it.next(timeout=300))
-                nd += out[-1][3] == 'diverged'
-                if nd > limit:
-                    raise too_many(nd, out[-1][1])
+            for _ in groups:
+                out += it.next(timeout=300)
         except multiprocessing.TimeoutError:
             raise common.MachineryError('export of %d programs stalled (no result for 300 s)' % len(trees))
     return out
@@ -507,6 +498,10 @@ def run(rep):
         rep.violation(sig, WHAT.get(sig, 'a reported set of types misses the run-time type (class %s)' % sig), w)
     if diverged:
         rep.set('analysis_diverged_example', diverged[0])
+    if len(diverged) > max(3, len(all_trees) // 100) and not rep.violations:
+        # (with violations the verdict stands on the programs that could be analysed)
+        raise common.MachineryError('type inference did not terminate within %.1fs on %d of %d programs and the rest '
+                                    'shows no violation; first:\n%s' % (ANALYSIS_TIMEOUT_S, len(diverged), len(all_trees), diverged[0]))
     rep.assume('CPython evaluates the instrumented rendering (every occurrence wrapped in an identity function) '
                'like the plain rendering that malt analyses')
     rep.assume('external functions and arguments may return/carry any value of their declared type(s); '
